@@ -24,6 +24,38 @@ CLAIMED = {
         note="As C03. Which of several missing names the error message mentions depends on map order; only the error "
              "class is compared.",
         ref="DESIGN.md §6 C04"),
+    "C14": dict(
+        technique="Coq proof (run with validation on = run with validation off when no validation error is added) + correspondence",
+        text="C14_neutral / C14_neutral_to_sql: for every value and both pretty settings, a validating rendering without "
+             "validation error is the very same run without validation (same chunks, arguments, bind table, errors); "
+             "C14_structural: the structural sentinels are reported identically in both modes. Proved by induction over "
+             "writer trees plus compile_errv_ok (induction over all values). Tie: byte-exact correspondence of model and "
+             "implementation on generated programs in all four option combinations; the metamorphic relation is also "
+             "evaluated directly on the implementation's output.",
+        note="Trusted as for C03. ErrNoConditionsGiven is a validation branch (only checked when validating), as the "
+             "property's anchors say.",
+        ref="DESIGN.md §6 C14"),
+    "C15": dict(
+        technique="Coq proof (pretty/plain runs related chunk by chunk; differing chunks are blanks) + correspondence + PostgreSQL-lexer token comparison",
+        text="C15_ws_only: for every value the pretty and the plain run have equal arguments, bind table and errors and "
+             "their chunk lists agree position by position except for pretty-dependent white-space chunks, which are "
+             "blanks/newlines in both modes (C15_blank); literals are single chunks, hence untouched. Tie: byte-exact "
+             "correspondence in both modes; the implementation's two texts are lexed with the extracted PostgreSQL lexer "
+             "(both standard_conforming_strings settings) and the token sequences compared.",
+        note="Trusted as for C03 plus the lexer formalisation coq/Pg/Lexer.v. The token-level statement is evaluated on "
+             "implementation output; the theorem is at chunk level.",
+        ref="DESIGN.md §6 C15"),
+    "C20": dict(
+        technique="Coq proof (well-formed values have no panic site; run is total) + type-directed generation with recover()",
+        text="C20_no_panic: every value satisfying wfe (no nil interface where the renderer calls a method, a plain grouping "
+             "element has a set, an INSERT query is a select) renders normally under every option combination and "
+             "supplied map; termination is structural (compile and run are structurally recursive Coq functions over "
+             "finite values). Tie: reflection-driven composition of every exported constructor/method incl. incomplete "
+             "statements; recover() around ToSQL; every generated value is checked to satisfy wfe and to render "
+             "identically in the model.",
+        note="Partial: reachable => wfe is checked on generated values (proved only for the part of the API modelled in "
+             "coq/Model/Api*.v); Go runtime stack exhaustion / allocation failure not modelled.",
+        ref="DESIGN.md §6 C20"),
 }
 
 PENDING = {}
